@@ -8,7 +8,7 @@ import numpy as np
 
 from harness import numeric, par
 
-SCALES = [(1.0, 0.0)]
+SCALES = [(1.0, 0.0), (1.0, 1073741824.0)]     # plain grid; the same grid far from the origin (translation invariance)
 
 
 def _close(got, exp):
@@ -106,7 +106,8 @@ def _check(b, scale=1.0, off=0.0):
         def g():
             got = pp.triangle_area(np.array([T(b["f"]), T(b["g"]), T(b["h"])]))
             e2 = abs(b["cross"]) / 2.0 * scale * scale
-            assert numeric.close(abs(got), e2, rel=1e-9, ab=1e-9 * scale * scale * (1 + abs(off) / max(scale, 1))), \
+            # the shoelace form multiplies coordinates: absolute rounding error grows with |offset| * extent
+            assert numeric.close(abs(got), e2, rel=1e-9, ab=1e-9 * scale * scale + 4e-16 * (abs(off) + 4 * scale) * 4 * scale * 8), \
                 {"got": float(got), "expected": e2}
         guard("triangle-area", g)
     elif k == "rank":
@@ -154,9 +155,11 @@ def run(ctx):
                 "non-trivial: non-degenerate chord / positive overlap / non-collinear distinct triple / vector of length > 1")
     ctx.assumptions += numeric.ASSUMPTIONS + [
         "square roots are applied last in binary64 to exact rational squares",
-        "triangle_area is compared in absolute value (the library returns the signed area)"]
+        "triangle_area is compared in absolute value (the library returns the signed area)",
+        "every case is also replayed translated by 2^30 (coordinates stay exactly representable; distances, IoU and curvature "
+        "are translation invariant), thorough adds a scaled/translated and a down-scaled copy"]
     if not ctx.quick:
-        SCALES = [(1.0, 0.0), (1024.0, 1048576.0)]
+        SCALES = [(1.0, 0.0), (1.0, 1073741824.0), (1024.0, 1048576.0), (0.0009765625, 0.0)]
     cfg = "Gen_Geometry_quick" if ctx.quick else "Gen_Geometry_thorough"
     beh = ctx.gen("Gen_Geometry", cfg, workers=1)
     ctx.exhaustive = True
